@@ -1876,7 +1876,9 @@ func (this *decodingTask) decode(res *decodingTaskResult) {
 		return
 	}
 
-	if read > uint64(1)<<34 {
+	// The compressor encodes a block into a buffer bounded by the block size: a bigger
+	// frame is invalid, do not allocate memory for it
+	if read > uint64(1)<<34 || (read+7)>>3 > max(4*uint64(this.blockLength), uint64(1)<<20) {
 		res.err = &IOError{msg: "Invalid block size", code: kanzi.ERR_BLOCK_SIZE}
 		return
 	}
